@@ -87,6 +87,14 @@ def expand_op(tid, op, res):
         if extra & 4:
             out.append(junk(tid, seed, 9))
         out.append(ev(tid, name, 2, seed, 1))
+    elif kind == 'callcut':
+        # a call whose path lookup never finishes (the walk failed half-way, or its last records were lost)
+        out.append(ev(tid, name, 1, seed, 0))
+        chunks = EV.lookup_events(tid, w(seed, 10)[0], b'/private/var/db/uuidtext/' + path_text(seed, 0)[:100] + b'/a/long/tail/that/needs/more/chunks')
+        out += chunks[:1 + k % max(len(chunks) - 1, 1)]
+        if extra & 1:
+            out.append(junk(tid, seed, 3))
+        out.append(ev(tid, name, 2, seed, 1))
     elif kind == 'single':
         out.append(ev(tid, name, 3 if extra & 1 else 0, seed, 0))
     elif kind == 'dyld':
@@ -163,6 +171,7 @@ def op_strategy(names=None):
         st.tuples(st.just('call'), nm, seed, k3, x),
         st.tuples(st.just('call'), nm, seed, k3, x),
         st.tuples(st.just('single'), nm, seed, k3, x),
+        st.tuples(st.just('callcut'), st.one_of(nm, st.sampled_from(['BSC_open', 'BSC_stat64', 'BSC_rename', 'BSC_access'])), seed, k3, x),
         st.tuples(st.just('dyld'), st.sampled_from(sorted(DYLD_STRING_OPS)), seed, k3, x),
         st.tuples(st.just('newthread'), st.just(''), seed, k3, x),
         st.tuples(st.just('exec'), st.just(''), seed, k3, x),
